@@ -2,7 +2,7 @@
 from ..driver import Plan, H
 from .resp_common import RESP_SLICE, MOD, INJ, ATTR, STUBS
 
-TYPES = {"plus": 43, "minus": 45, "colon": 58, "null": 95, "inline": 0}
+TYPES = {"plus": 43, "minus": 45, "colon": 58, "null": 95}
 
 
 def plan(tier):
@@ -25,24 +25,33 @@ def plan(tier):
             fn = "c21_lineinc_%s_h%d" % (name, h)
             gen.append("vk_proof! {\n" + ATTR % (h + 4) + STUBS + "fn %s() { line_incomplete::<%d>(%d); }\n}\n" % (fn, h, ty))
             p.add(MOD, H(fn, {"frame": name, "header_bytes": h, "crlf": "absent"}, "line_incomplete"))
+    # inline commands (first byte not a type character): the tokenizer over symbolic characters is heavy
+    for h, t in (() if tier == "quick" else ((0, 0), (1, 0))):
+        fn = "c21_line_inline_h%d_t%d" % (h, t)
+        gen.append("vk_proof! {\n" + ATTR % (h + t + 6) + STUBS + "fn %s() { line_frame::<%d, %d>(0); }\n}\n" % (fn, h, t))
+        p.add(MOD, H(fn, {"frame": "inline", "header_bytes": h, "trailing_bytes": t}, "line_inline"))
     for h in range(0, 3):
         for pl in range(0, 5 if tier == "quick" else 6):
             fn = "c21_bulk_h%d_p%d" % (h, pl)
             gen.append("vk_proof! {\n" + ATTR % (h + pl + 5) + STUBS + "fn %s() { bulk_frame::<%d, %d>(); }\n}\n" % (fn, h, pl))
             p.add(MOD, H(fn, {"frame": "bulk", "header_bytes": h, "bytes_after_header": pl}, "bulk"))
     for h in range(0, 3):
-        for k in range(0, 3 if tier == "quick" else 4):
-            fn = "c21_array_h%d_k%d" % (h, k)
-            gen.append("vk_proof! {\n" + ATTR % (h + 3 * k + 6) + STUBS + "fn %s() { array_frame::<%d, %d>(); }\n}\n" % (fn, h, k))
-            p.add(MOD, H(fn, {"frame": "array", "header_bytes": h, "element_slots": k}, "array"))
+        fn = "c21_array_h%d_k0" % h
+        gen.append("vk_proof! {\n" + ATTR % (h + 6) + STUBS + "fn %s() { array_frame::<%d, 0>(); }\n}\n" % (fn, h))
+        p.add(MOD, H(fn, {"frame": "array header", "header_bytes": "%d arbitrary bytes" % h, "element_slots": 0}, "array_header"))
+    for k in range(0, 3):
+        for count in range(0, (2 if tier == "quick" else k + 2)):
+            if count > k + 1:
+                continue
+            fn = "c21_array_elems_k%d_count%d" % (k, count)
+            gen.append("vk_proof! {\n" + ATTR % (4 * k + 8) + STUBS + "fn %s() { array_elems::<%d>(%d); }\n}\n" % (fn, k, count))
+            p.add(MOD, H(fn, {"frame": "array", "declared_count": count, "elements_received": k, "element": "+x CRLF, x symbolic"}, "array_elems"))
     for d in ((6, 12) if tier == "quick" else (6, 12, 19, 20)):
         fn = "c21_array_count_%ddigits" % d
         gen.append("vk_proof! {\n" + ATTR % (d + 5) + STUBS + "fn %s() { array_huge_count::<%d>(); }\n}\n" % (fn, d))
         p.add(MOD, H(fn, {"frame": "array header only", "count_digits": d}, "array_count"))
-    gen.append("vk_proof! {\n" + ATTR % 140 + "fn c21_nesting_over_limit() { nesting(RespValue::MAX_DEPTH + 1, false); }\n}\n")
-    p.add(MOD, H("c21_nesting_over_limit", {"nesting": "declared limit + 1, concrete bytes"}, "nesting"))
-    gen.append("vk_proof! {\n" + ATTR % 140 + "fn c21_nesting_small() { nesting(3, true); }\n}\n")
-    p.add(MOD, H("c21_nesting_small", {"nesting": 3}, "nesting"))
+    gen.append("vk_proof! {\n" + ATTR % 8 + "fn c21_nesting_limit() { nesting_limit(); }\n}\n")
+    p.add(MOD, H("c21_nesting_limit", {"nesting": "at the declared limit, one below it, and propagation to an inner array"}, "nesting"))
     p.gen["c21_gen.rs"] = "".join(gen)
     p.functions = ["RespValue::{decode,decode_frame,decode_simple_string,decode_error,decode_integer,decode_bulk_string,"
                    "decode_array,decode_null,decode_inline_command,parse_inline_tokens,read_line}"]
@@ -63,7 +72,8 @@ def plan(tier):
                "after the header; arrays: <= 2 header bytes x <= %d element slots of symbolic type; array headers of 6..%d "
                "decimal digits with nothing after them; nesting limit + 1" % (maxn, 4 if tier == "quick" else 5,
                                                                               2 if tier == "quick" else 3, 12 if tier == "quick" else 20))
-    p.not_covered = "longer frames; nested arrays with symbolic content; real stack exhaustion (no stack model in CBMC)"
+    p.not_covered = ("longer frames; inline commands (quick tier: the tokenizer over symbolic characters does not finish in the budget); "
+                     "arrays whose elements are not simple strings, nested arrays with symbolic content; real stack exhaustion")
     p.per_harness_timeout = 400 if tier == "quick" else 1500
     p.total_timeout = 1600 if tier == "quick" else 7000
     return p
